@@ -6,6 +6,7 @@
 #include "verif_prelude.h"
 #include <limits.h>
 #include <strings.h>
+#define UC(c) ((int)((c) & 0xff))
 
 size_t strlen(const char *s){ size_t n = 0; while (s[n] != 0) n++; return n; }
 size_t strnlen(const char *s, size_t m){ size_t n = 0; while (n < m && s[n] != 0) n++; return n; }
@@ -20,10 +21,10 @@ char *strncpy(char *d, const char *s, size_t n){
   while (i < n && s[i] != 0) { d[i] = s[i]; i++; }
   if (i < n) { __CPROVER_assert(__CPROVER_w_ok(d, n), "strncpy: n does not exceed the destination"); d[i] = 0; }
   return d; }
-int strcmp(const char *a, const char *b){ size_t i = 0; while (a[i] != 0 && a[i] == b[i]) i++; return (int)(unsigned char)a[i] - (int)(unsigned char)b[i]; }
-int strncmp(const char *a, const char *b, size_t n){ size_t i = 0; if (n == 0) return 0; while (i + 1 < n && a[i] != 0 && a[i] == b[i]) i++; return (int)(unsigned char)a[i] - (int)(unsigned char)b[i]; }
+int strcmp(const char *a, const char *b){ size_t i = 0; while (a[i] != 0 && a[i] == b[i]) i++; return UC(a[i]) - UC(b[i]); }
+int strncmp(const char *a, const char *b, size_t n){ size_t i = 0; if (n == 0) return 0; while (i + 1 < n && a[i] != 0 && a[i] == b[i]) i++; return UC(a[i]) - UC(b[i]); }
 static int verif_lower(int c){ return (c >= 'A' && c <= 'Z') ? c + 32 : c; }
-int strcasecmp(const char *a, const char *b){ size_t i = 0; while (a[i] != 0 && verif_lower((unsigned char)a[i]) == verif_lower((unsigned char)b[i])) i++; return verif_lower((unsigned char)a[i]) - verif_lower((unsigned char)b[i]); }
+int strcasecmp(const char *a, const char *b){ size_t i = 0; while (a[i] != 0 && verif_lower(UC(a[i])) == verif_lower(UC(b[i]))) i++; return verif_lower(UC(a[i])) - verif_lower(UC(b[i])); }
 char *strchr(const char *s, int c){ size_t i = 0; for (;;) { if (s[i] == (char)c) return (char *)s + i; if (s[i] == 0) return 0; i++; } }
 char *strrchr(const char *s, int c){ const char *r = 0; size_t i = 0; for (;;) { if (s[i] == (char)c) r = s + i; if (s[i] == 0) return (char *)r; i++; } }
 char *strstr(const char *h, const char *n){
@@ -40,14 +41,27 @@ char *strcasestr(const char *h, const char *n){
   if (n[0] == 0) return (char *)h;
   for (size_t i = 0; h[i] != 0; i++) {
     size_t j = 0;
-    while (n[j] != 0 && h[i + j] != 0 && verif_lower((unsigned char)h[i + j]) == verif_lower((unsigned char)n[j])) j++;
+    while (n[j] != 0 && h[i + j] != 0 && verif_lower(UC(h[i + j])) == verif_lower(UC(n[j]))) j++;
     if (n[j] == 0) return (char *)h + i;
     if (h[i + j] == 0) return 0;
   }
   return 0;
 }
-char *strdup(const char *s){ size_t n = strlen(s); char *p = malloc(n + 1); for (size_t i = 0; i <= n; i++) p[i] = s[i]; return p; }
-char *strndup(const char *s, size_t m){ size_t n = strnlen(s, m); char *p = malloc(n + 1); for (size_t i = 0; i < n; i++) p[i] = s[i]; p[n] = 0; return p; }
+/* allocation of a small, symbolically sized block as a choice among CONCRETE sizes: cbmc's memory model exhausts memory on
+   symbolically sized objects that are then accessed byte by byte (probed), while exact object sizes are kept this way */
+#define VERIF_SZ(k) if (n == k) return malloc(k);
+static void *verif_malloc_small(size_t n){
+  VERIF_SZ(1) VERIF_SZ(2) VERIF_SZ(3) VERIF_SZ(4) VERIF_SZ(5) VERIF_SZ(6) VERIF_SZ(7) VERIF_SZ(8) VERIF_SZ(9) VERIF_SZ(10) VERIF_SZ(11) VERIF_SZ(12)
+  VERIF_SZ(13) VERIF_SZ(14) VERIF_SZ(15) VERIF_SZ(16) VERIF_SZ(17) VERIF_SZ(18) VERIF_SZ(19) VERIF_SZ(20) VERIF_SZ(21) VERIF_SZ(22) VERIF_SZ(23) VERIF_SZ(24)
+  return malloc(n); }
+#ifdef VERIF_STRDUP_EXACT_INPUT
+/* for harnesses whose input string fills its buffer exactly (no NUL before the last byte): the copy gets the input's
+   remaining object size, which is then EXACTLY strlen+1 and, being concrete, keeps the run tractable */
+char *strdup(const char *s){ size_t n = strlen(s); size_t room = __CPROVER_OBJECT_SIZE(s) - (size_t)__CPROVER_POINTER_OFFSET(s); __CPROVER_assert(room == n + 1, "harness: strdup input fills its buffer exactly"); char *p = malloc(room); for (size_t i = 0; i <= n; i++) p[i] = s[i]; return p; }
+#else
+char *strdup(const char *s){ size_t n = strlen(s); char *p = verif_malloc_small(n + 1); for (size_t i = 0; i <= n; i++) p[i] = s[i]; return p; }
+#endif
+char *strndup(const char *s, size_t m){ size_t n = strnlen(s, m); char *p = verif_malloc_small(n + 1); for (size_t i = 0; i < n; i++) p[i] = s[i]; p[n] = 0; return p; }
 static int verif_isdelim(char c, const char *d){ for (size_t i = 0; d[i] != 0; i++) if (d[i] == c) return 1; return 0; }
 char *strtok_r(char *str, const char *delim, char **save){
   char *p = str ? str : *save;
@@ -60,12 +74,12 @@ char *strtok_r(char *str, const char *delim, char **save){
   return tok;
 }
 static long long verif_atoll(const char *s, _Bool *ovf){
-  size_t i = 0; int neg = 0; long long v = 0;
+  size_t i = 0; int neg = 0; long long v = 0; int nd = 0;
   while (s[i] == ' ' || (s[i] >= 9 && s[i] <= 13)) i++;
   if (s[i] == '-') { neg = 1; i++; } else if (s[i] == '+') i++;
   while (s[i] >= '0' && s[i] <= '9') {
-    if (v > (LLONG_MAX - (s[i] - '0')) / 10) { *ovf = 1; return neg ? LLONG_MIN : LLONG_MAX; }
-    v = v * 10 + (s[i] - '0'); i++;
+    if (nd >= 18) { *ovf = 1; return neg ? LLONG_MIN : LLONG_MAX; }     /* 18 digits always fit; more saturate (no division needed) */
+    v = v * 10 + (s[i] - '0'); i++; if (v != 0) nd++;
   }
   return neg ? -v : v;
 }
